@@ -1520,9 +1520,15 @@ def gen_for_block(node, code, codegen):
     node.parent_routine.local_vars[step_sign_var] = var_type
     node.parent_routine.local_vars[to_var] = var_type
 
-    var = node.var.get_base_variable()
-
     code.add(('_label', init_label))
+
+    # start, limit and step are evaluated once, in that order, and the
+    # control variable is assigned only after all three are known
+    codegen.gen_code_for_node(node.from_expr, code)
+    gen_code_for_conv(var_type, node.from_expr, code, codegen)
+    codegen.gen_code_for_node(node.to_expr, code)
+    gen_code_for_conv(var_type, node.to_expr, code, codegen)
+    code.add(('storel', to_var))
     if node.step_expr:
         codegen.gen_code_for_node(node.step_expr, code)
         gen_code_for_conv(var_type, node.step_expr, code, codegen)
@@ -1539,44 +1545,26 @@ def gen_for_block(node, code, codegen):
             (f'push1{type_char}', 1),
             ('storel', step_sign_var),
         )
-    codegen.gen_code_for_node(node.from_expr, code)
-    gen_code_for_conv(var_type, node.from_expr, code, codegen)
-    code.add((f'store{scope}', var.name))
-    codegen.gen_code_for_node(node.to_expr, code)
-    gen_code_for_conv(var_type, node.to_expr, code, codegen)
-    code.add(('storel', to_var))
+    # the start value is still on the stack; the control variable may
+    # be a parameter, i.e. a reference
+    gen_lvalue_write(node.var, code, codegen)
 
-    # make sure the range is compatible with the step value (by
-    # checking if (to - from) has the same sign as step value). if
-    # not, skip the loop.
-    code.add(
-        (f'readl{type_char}', to_var),
-        (f'read{scope}{type_char}', var.name),
-        ('sub',),
-        (f'readl{type_char}', step_sign_var),
-        ('mul',),
-        (f'push{type_char}', 0),
-        ('cmp',),
-        ('ge',),
-        ('jz', end_label),
-    )
-
-    # multiply "to" value with the step sign so that we can always use
-    # the same compare instruction
-    code.add(
-        (f'readl{type_char}', step_sign_var),
-        (f'readl{type_char}', to_var),
-        ('mul',),
-        (f'storel', to_var),
-    )
-
+    # The loop runs while the control variable has not passed the
+    # limit in the direction of the step: sign(step) * cmp(var, limit)
+    # <= 0. The values are compared, never subtracted or multiplied,
+    # so a range wider than the type (FOR i% = -20000 TO 20000) or a
+    # limit at the type minimum does not overflow.
     code.add(('_label', check_label))
+    codegen.gen_code_for_node(node.var, code)
     code.add(
-        (f'read{scope}{type_char}', var.name),
-        (f'readl{type_char}', step_sign_var),
-        ('mul',),
         (f'readl{type_char}', to_var),
         ('cmp',),
+    )
+    if var_type != expr.Type.INTEGER:
+        code.add((f'conv%{type_char}',))
+    code.add(
+        (f'readl{type_char}', step_sign_var),
+        ('mul',),
         ('le',),
         ('jz', end_label),
     )
@@ -1584,14 +1572,14 @@ def gen_for_block(node, code, codegen):
     code.add(('_label', body_label))
     gen_code_for_block(node.body, code, codegen)
 
+    code.add(('_label', next_label))
+    codegen.gen_code_for_node(node.var, code)
     code.add(
-        ('_label', next_label),
-        (f'read{scope}{type_char}', var.name),
         (f'readl{type_char}', step_var),
         ('add',),
-        (f'store{scope}', var.name),
-        ('jmp', check_label),
     )
+    gen_lvalue_write(node.var, code, codegen)
+    code.add(('jmp', check_label))
 
     code.add(('_label', end_label))
 
